@@ -152,7 +152,8 @@ func genC03(g *Gen, tier string) *Program {
 				case 2, 3:
 					spec = genDurSpec(g)
 				default:
-					spec = &BucketSpec{Nil: true}
+					// nil, or empty but not nil: both mean the scope's defaults
+					spec = pick(g, &BucketSpec{Nil: true}, &BucketSpec{Nil: true}, &BucketSpec{}, &BucketSpec{Dur: true})
 				}
 				hn++
 				name := fmt.Sprintf("h%d", hn)
@@ -161,7 +162,7 @@ func genC03(g *Gen, tier string) *Program {
 				}
 				ops = append(ops, Op{K: "hist", S: pick(g, 0, scope), M: nextM, Name: name, B: spec})
 				eff := spec
-				if spec.Nil {
+				if spec.Nil || spec.empty() {
 					eff = c.DefBuckets
 					if eff == nil {
 						eff = &BucketSpec{Dur: true, Durs: tallyDefaultDurs}
@@ -323,7 +324,7 @@ func checkTilingEvents(env *Env, hs map[string]*histInfo) []Violation {
 		okSpec := false
 		for _, s := range h.specs {
 			eff := s
-			if s == nil || s.Nil {
+			if s == nil || s.Nil || s.empty() {
 				eff = env.Prog.Cfg.DefBuckets
 				if eff == nil {
 					eff = &BucketSpec{Dur: true, Durs: tallyDefaultDurs}
